@@ -55,6 +55,45 @@ static void one_buffer(int ii, uint8_t *p, int len, const char *place)
 			}
 			p[pos] = 0;
 		}
+		/* dense families: runs of non-zero bytes (every byte lane of a vector block non-zero at once).
+		 *   suffix [q,len) for every q, prefix [0,q) for every q, sliding window [q,q+128) and [q,q+64) for every q;
+		 * fill values ff / 01 / 80. The answer must be non-zero and nothing outside the region may be read. */
+		static const uint8_t dv[] = { 0xff, 0x01, 0x80 };
+		for (int fam = 0; fam < 4 && len; fam++)
+			for (int vi = 0; vi < 3; vi++) {
+				uint8_t v = dv[vi];
+				int w = fam == 2 ? 128 : 64;
+				memset(p, 0, len);
+				for (int q = 0; q < len; q++) {
+					/* incremental construction of the q-th member */
+					if (fam == 0)
+						p[len - 1 - q] = v;          /* suffix [len-1-q, len) */
+					else if (fam == 1)
+						p[q] = v;                    /* prefix [0, q] */
+					else {
+						p[q] = v;                    /* window (q-w, q] */
+						if (q >= w)
+							p[q - w] = 0;
+					}
+					v_fault_armed = 1;
+					if (sigsetjmp(v_fault_jmp, 1) == 0)
+						r = f(p, len);
+					else {
+						snprintf(key, sizeof key, "%s fault dense len=%d %s", impl[ii].name, len, place);
+						v_violation(key, "fault at %s addr=%p (%s): region = %s of %02x bytes, member %d (%s)", v_sym(v_fault_rip), (void *)v_fault_addr, v_fault_write ? "write" : "read",
+							    fam == 0 ? "zeros then a suffix" : fam == 1 ? "a prefix then zeros" : fam == 2 ? "a 128-byte window" : "a 64-byte window", v, q,
+							    fam == 0 ? "suffix starts at len-1-member" : fam == 1 ? "prefix ends at member" : "window ends at member");
+						return;
+					}
+					v_fault_armed = 0;
+					v_eval();
+					if (r == 0) {
+						snprintf(key, sizeof key, "%s missed dense len=%d fam=%d q=%d %s", impl[ii].name, len, fam, q, place);
+						v_violation(key, "a run of %02x bytes not detected", v);
+					}
+				}
+			}
+		memset(p, 0, len);
 	} else {
 		snprintf(key, sizeof key, "%s fault len=%d %s", impl[ii].name, len, place);
 		v_violation(key, "fault at %s addr=%p (%s) on all-zero input", v_sym(v_fault_rip), (void *)v_fault_addr, v_fault_write ? "write" : "read");
@@ -102,6 +141,7 @@ int main(int argc, char **argv)
 out:
 	if (v_shard == 0) {
 		v_sample("len=17 placement E: region all zero -> 0; byte 0x80 at offset 16 -> non-zero; canary neighbours non-zero");
+		v_note("dense families: zeros + non-zero suffix, non-zero prefix + zeros, sliding 64- and 128-byte non-zero windows, every start, fill ff/01/80 (all byte lanes of a vector block non-zero at once)");
 		v_note("placements: E (ends at PROT_NONE page), S+off (starts off bytes after a PROT_NONE page), off=0..63 for len<=256 else {0,1,7,8,15,16,31,32,63}");
 	}
 	return v_finish();
